@@ -42,5 +42,12 @@ try:
     m["hooks"]["source_commits"] = [l.split()[0] for l in log if l.split(" ", 1)[1].startswith("verif hook")][::-1]
 except Exception:
     pass
+try:
+    fixes = [l for l in log if l.split(" ", 1)[1].startswith("fix:")][::-1]
+    m["notes"] = ("Known findings: /verif/known_findings.json (status=finding suppresses exactly that signature; status=fixed suppresses nothing). "
+                  "Seeded breaks used to test the monitors: /verif/seeded/<id>/ (patch.diff, demo.diff, meta.json). "
+                  "fix: commits in /repo (genuine defects found by the monitors, DESIGN.md section 4.1): " + "; ".join(fixes))
+except Exception:
+    pass
 json.dump(m, open(os.path.join(root, "MANIFEST.json"), "w"), indent=1)
 print("claimed:", sorted(claimed))
